@@ -29,6 +29,17 @@ import numpy as np
 ROOT = os.path.dirname(os.path.dirname(os.path.abspath(__file__)))
 
 
+def emit(*args):
+    """print that survives a consumer closing the pipe early (the exit status must stay meaningful)."""
+    try:
+        print(*args, flush=True)
+    except BrokenPipeError:
+        try:
+            sys.stdout = open(os.devnull, "w")
+        except OSError:
+            pass
+
+
 # --------------------------------------------------------------------------- helpers
 def jsonable(obj):
     """Convert numpy scalars/arrays, tuples, sets recursively into JSON types."""
@@ -143,20 +154,20 @@ def do_replay(mod, path: str) -> int:
         part, case = data["part"], data["case"]
     except Exception:
         traceback.print_exc()
-        print(f"HARNESS-ERROR: cannot read replay file {path}")
+        emit(f"HARNESS-ERROR: cannot read replay file {path}")
         return 2
     out = mod.replay(part, case)
     viol = out.get("violation")
     if viol:
-        print(f"replay {path}: {viol['kind']}: {viol['detail']}")
+        emit(f"replay {path}: {viol['kind']}: {viol['detail']}")
         active, _ = load_known_findings(mod.ID)
         for key in active:
             if getattr(mod, "KNOWN", {}).get(key, {}).get("match", lambda *a: False)(part, viol["kind"], case):
-                print(f"KNOWN-FINDING: property={mod.ID} key={key} {mod.KNOWN[key]['text']}")
+                emit(f"KNOWN-FINDING: property={mod.ID} key={key} {mod.KNOWN[key]['text']}")
                 return 0
-        print(f"VIOLATION property={mod.ID} replay={path}")
+        emit(f"VIOLATION property={mod.ID} replay={path}")
         return 1
-    print(f"replay {path}: property held")
+    emit(f"replay {path}: property held")
     return 0
 
 
@@ -200,7 +211,7 @@ def run_check(mod, tier: str, seed: int, jobs: int, only: str | None, scale: flo
     known_table = getattr(mod, "KNOWN", {})
     for key in active_known:
         if key not in known_table:
-            print(f"HARNESS-ERROR: known_findings.txt lists key={key} unknown to props.{mod.ID.lower()}")
+            emit(f"HARNESS-ERROR: known_findings.txt lists key={key} unknown to props.{mod.ID.lower()}")
             return 2
 
     report = {"violations": [], "known": {}}
@@ -351,21 +362,21 @@ def run_check(mod, tier: str, seed: int, jobs: int, only: str | None, scale: flo
             json.dump(evidence, fh, indent=1, sort_keys=True)
             fh.write("\n")
 
-    print(f"[{mod.ID}] tier={tier} seed={seed} units={len(units)} evaluations={coverage['evaluations']} "
+    emit(f"[{mod.ID}] tier={tier} seed={seed} units={len(units)} evaluations={coverage['evaluations']} "
           f"distinct_nontrivial={coverage['distinct_nontrivial']} wall={wall:.1f}s quansino={coverage['quansino_path']}")
     top = sorted(total["classes"].items(), key=lambda kv: -kv[1])[:25]
-    print(f"[{mod.ID}] classes: " + ", ".join(f"{k}={v}" for k, v in top))
+    emit(f"[{mod.ID}] classes: " + ", ".join(f"{k}={v}" for k, v in top))
     for line in lines:
-        print(line)
+        emit(line)
 
     if harness_errors:
         for e in harness_errors[:3]:
-            print("HARNESS-ERROR:\n" + e)
+            emit("HARNESS-ERROR:\n" + e)
         return 1 if buckets else 2
     if buckets:
         return 1
     if coverage["evaluations"] < 1 or coverage["distinct_nontrivial"] < 2:
-        print(f"HARNESS-ERROR: vacuous run (evaluations={coverage['evaluations']}, "
+        emit(f"HARNESS-ERROR: vacuous run (evaluations={coverage['evaluations']}, "
               f"distinct_nontrivial={coverage['distinct_nontrivial']})")
         return 2
     return 0
@@ -386,7 +397,7 @@ def main(argv) -> int:
         mod = importlib.import_module(f"props.{args.prop.lower()}")
     except Exception:
         traceback.print_exc()
-        print(f"HARNESS-ERROR: cannot import props.{args.prop.lower()}")
+        emit(f"HARNESS-ERROR: cannot import props.{args.prop.lower()}")
         return 2
     try:
         seed = int(os.environ.get("VERIF_SEED", "1") or "1")
@@ -401,5 +412,5 @@ def main(argv) -> int:
         return run_check(mod, tier, seed, args.jobs, args.only, args.scale)
     except Exception:
         traceback.print_exc()
-        print("HARNESS-ERROR: unexpected exception in the runner")
+        emit("HARNESS-ERROR: unexpected exception in the runner")
         return 2
